@@ -262,6 +262,41 @@ def lockedFlags (acq rel : α → Bool) : List α → Bool → List (α × Bool)
   | x :: xs, held =>
     (x, held) :: lockedFlags acq rel xs (if acq x then true else if rel x then false else held)
 
+/-! ### Calls out of the receiver code (logging) while the re-entrant lock is held
+
+`threading.Condition()` wraps an `RLock`: a callback reached from inside the `with` block (a logging handler) can call
+back into the same receiver on the same thread and sees the intermediate state of the critical section.  The translator
+reports every such call as a `CallOut` fact; the programs themselves do not contain them (they have no effect of their
+own).  `exposes` says whether a call-out sits where the state is inconsistent: in `_receive_signal` after the counter
+was read and before the signal is appended (or dropped), in `get_next_signal` after the queue was tested and before
+`popleft`. -/
+
+inductive Fn | recv | get | discard | len | ready | plainWait | taskWait
+  deriving DecidableEq, Repr
+
+/-- a call out of function `fn`, executed just before its statement number `before`, with the lock held or not -/
+structure CallOut where
+  fn     : Fn
+  before : Nat
+  locked : Bool
+  deriving DecidableEq, Repr
+
+def recvWindow (prog : List RI) (k : Nat) : Bool :=
+  decide (prog.findIdx (fun x => x == .mkSig || x == .takeSeq) < k) && decide (k ≤ prog.findIdx (· == .append))
+
+def isSkip : GI → Bool
+  | .skipIfNonEmpty _ => true
+  | _ => false
+
+def getWindow (prog : List GI) (k : Nat) : Bool :=
+  decide (prog.findIdx isSkip < k) && decide (k ≤ prog.findIdx (· == .pop))
+
+def exposes (P : Progs) (c : CallOut) : Bool :=
+  c.locked && (match c.fn with
+    | .recv => recvWindow P.recv c.before
+    | .get => getWindow P.get c.before
+    | _ => false)
+
 /-- `n` consecutive steps of thread `i` -/
 def steps (i n : Nat) : List Act := List.replicate n (.step i)
 
